@@ -4127,7 +4127,13 @@ class ForeachNode(ActionSinkNode, ActionSourceNode):
             for transition in state.all_transitions():
                 if transition.target in ignored_targets or transition.is_fallthrough:
                     continue
-                transition.attach(*self.each_actions, prepend=True)
+                # Run after the per-character actions of the match itself (appends): those can still refuse the
+                # character (out of space), in which case it was not read and the each-actions must not run for it.
+                position = 0
+                for i, action in enumerate(transition.actions):
+                    if action.get_mode() == ActionMode.EACH_CHARACTER:
+                        position = i + 1
+                transition.actions[position:position] = self.each_actions
 
         if self.next is not None:
             sub_dfa.append_after(self.next.convert(current_error_handlers), chain_actions=self.after_actions)
